@@ -4443,36 +4443,53 @@ impl Lexer<'_> {
                 self.push_mode(LexerMode::WsOrCStyleCommentOnly);
             }
             '%' if is_valid_unicode_sas_name_start(self.cursor.peek_next()) => {
+                // Save position of the top of the mode stack before macro lexing
+                // kicks in, which may add new modes (and a checkpoint). See below
+                let mode_stack_len = self.mode_stack.len();
+
                 self.start_token();
                 self.lex_macro_identifier(false);
 
                 // This may be both %do %while/until or %do %mcall_that_creates_iter_var
                 // so we need to fork on the type of the last token. For %while/until
                 // we do nothing because lexer above has already set the mode stack,
-                // for the macro call we do the same as for all other symbols - push the,
+                // for the macro call we do the same as for all other symbols - add the,
                 // name expression mode, except that we know we've found at least the start
                 if self.buffer.last_token_info().is_some_and(|ti| {
                     ![TokenType::KwmUntil, TokenType::KwmWhile].contains(&ti.token_type)
                 }) {
-                    self.push_mode(LexerMode::MacroEval {
-                        macro_eval_flags: MacroEvalExprFlags::new(
-                            MacroEvalNumericMode::Integer,
-                            MacroEvalNextArgumentMode::None,
-                            true,
-                            true,
-                            false, // doesn't matter really
-                        ),
-                        pnl: 0,
-                    });
-                    self.push_mode(LexerMode::WsOrCStyleCommentOnly);
-                    self.push_mode(LexerMode::ExpectSymbol(
-                        TokenType::ASSIGN,
-                        TokenChannel::DEFAULT,
-                    ));
-                    self.push_mode(LexerMode::WsOrCStyleCommentOnly);
+                    // The macro call lexing may have populated modes to lex its arguments,
+                    // and these rely on a checkpoint => they must be handled first.
+                    // Hence we put our modes "after" them (with index below the newly
+                    // populated ones), same as in `dispatch_macro_call_arg_or_value`.
+                    // Unlike pushing, this goes in the same order we expect them
+                    // to be handled, not reverse
+
                     // Note the difference from below. We already lexed one part of the var name expr,
                     // so we pass `true` and do not pass error, since it won't ever be emitted anyway
-                    self.push_mode(LexerMode::MacroNameExpr(true, None));
+                    self.mode_stack
+                        .insert(mode_stack_len, LexerMode::MacroNameExpr(true, None));
+                    self.mode_stack
+                        .insert(mode_stack_len, LexerMode::WsOrCStyleCommentOnly);
+                    self.mode_stack.insert(
+                        mode_stack_len,
+                        LexerMode::ExpectSymbol(TokenType::ASSIGN, TokenChannel::DEFAULT),
+                    );
+                    self.mode_stack
+                        .insert(mode_stack_len, LexerMode::WsOrCStyleCommentOnly);
+                    self.mode_stack.insert(
+                        mode_stack_len,
+                        LexerMode::MacroEval {
+                            macro_eval_flags: MacroEvalExprFlags::new(
+                                MacroEvalNumericMode::Integer,
+                                MacroEvalNextArgumentMode::None,
+                                true,
+                                true,
+                                false, // doesn't matter really
+                            ),
+                            pnl: 0,
+                        },
+                    );
                 }
             }
             _ => {
